@@ -18,6 +18,7 @@ import (
 
 	"verif/internal/core"
 	"verif/internal/gramenum"
+	"verif/internal/tabinterp"
 )
 
 type pred struct {
@@ -33,6 +34,10 @@ type caseT struct {
 	// Firsts[i] = bit set over the two continuation terminals {ta, tc} of alternative i (1 = ta,
 	// 2 = tc, 3 = both); nil = every alternative continues with ta only.
 	Firsts []int `json:"firsts,omitempty"`
+	// Extra adds a plain empty nonterminal X with S: X ta tc next to S: L_i ta tb, reducible in the same
+	// state on ta, and compiles with lalr(2): the second token (tb vs tc) separates X from the alternatives, but
+	// the choice AMONG the alternatives still has to be made by their predicates.
+	Extra bool `json:"extra,omitempty"`
 }
 
 func (k caseT) String() string {
@@ -84,7 +89,11 @@ func (k caseT) grammar() (*lalr.Grammar, int, int) {
 			f = k.Firsts[i]
 		}
 		if f&1 != 0 {
-			add(S, lalr.Sym(firstL+i), 1)
+			if k.Extra {
+				add(S, lalr.Sym(firstL+i), 1, 2) // one more token, so that the state after ta only shifts
+			} else {
+				add(S, lalr.Sym(firstL+i), 1)
+			}
 		}
 		if f&2 != 0 {
 			add(S, lalr.Sym(firstL+i), 3)
@@ -102,7 +111,63 @@ func (k caseT) grammar() (*lalr.Grammar, int, int) {
 		}
 		g.Lookaheads = append(g.Lookaheads, la)
 	}
+	if k.Extra {
+		X := lalr.Sym(len(g.Symbols))
+		g.Symbols = append(g.Symbols, "X")
+		add(S, X, 1, 3)
+		add(X)
+	}
 	return g, firstL, emptyRule0
+}
+
+// checkExtra: see caseT.Extra. Only constrains successful compiles.
+func (k caseT) checkExtra() outcome {
+	g, firstL, _ := k.grammar()
+	var tbl *lalr.Tables
+	var cerr error
+	if err := core.Guard(func() { tbl, cerr = lalr.Compile(g, lalr.Options{Lookahead: 2}) }); err != nil {
+		return outcome{key: "panic:" + core.PanicSite(err), msg: err.Error()}
+	}
+	if cerr != nil {
+		return outcome{accepted: false}
+	}
+	out := outcome{accepted: true}
+	m := &tabinterp.Machine{T: tbl, Terms: 4}
+	// ta followed by tc: X
+	kind, arg, _ := m.Decide(0, 1, []int{3})
+	if xRule := len(g.Rules) - 1; kind != tabinterp.ActReduce || arg != xRule {
+		return outcome{key: "lalr2:extra-reduction-lost", msg: fmt.Sprintf("state 0 on ta tc: expected reduce of X (rule %d), tables decide kind=%d arg=%d", xRule, kind, arg)}
+	}
+	// ta followed by tb: the alternatives, decided by their predicates
+	kind, arg, _ = m.Decide(0, 1, []int{2})
+	if kind != tabinterp.ActReduce || arg < len(g.Rules) {
+		return outcome{key: "lalr2:runtime-decision-replaced-by-fixed-action", msg: fmt.Sprintf("state 0 on ta tb: %d alternatives with predicates are in conflict there, but the lalr(2) automaton leads to the fixed action kind=%d arg=%d (rules >= %d are runtime decisions) without reporting a conflict", len(k.Alts), kind, arg, len(g.Rules))}
+	}
+	lr := tbl.Lookaheads[arg-len(g.Rules)]
+	for assign := 0; assign < 1<<uint(k.M); assign++ {
+		want, cnt := -1, 0
+		for i, a := range k.Alts {
+			if a.holds(assign) {
+				cnt++
+				want = i
+			}
+		}
+		if cnt != 1 {
+			continue
+		}
+		target := int(lr.DefaultTarget)
+		for _, cs := range lr.Cases {
+			if v := assign>>uint(cs.Input-1)&1 == 1; v != cs.Negated {
+				target = int(cs.Target)
+				break
+			}
+		}
+		out.decided++
+		if target != firstL+want {
+			return outcome{key: "lalr2:wrong-alternative", msg: fmt.Sprintf("assignment %0*b satisfies only alternative %d but the decision list %+v (default %d) selects %s", k.M, assign, want, lr.Cases, lr.DefaultTarget, g.Symbols[target])}
+		}
+	}
+	return out
 }
 
 func (a alt) holds(assign int) bool {
@@ -296,8 +361,8 @@ func allAlts(m int) []alt {
 }
 
 func run(c *core.Ctx) {
-	c.Rule("every set of n alternatives (n<=3 quick for m<=3; n<=4 thorough) drawn as combinations from all ordered conjunctions of distinct possibly-negated predicates over m<=3 predicates, placed in one parser state; every accepted set with n<=3 also under every assignment of continuation terminals {ta, tc, both} to the alternatives (the alternatives in conflict then differ per terminal); accepted sets: all 2^m truth assignments; non-trivial = accepted set with >=1 assignment satisfying exactly one alternative; rejected sets that the reference calls exclusive+consistently ordered are counted as incompleteness (not a violation: the statement only constrains accepted sets and requires rejection of bad ones)")
-	var accepted, rejected, incomplete, decided, nontrivial, perTerminal, perTerminalRejected int64
+	c.Rule("every set of n alternatives (n<=3 quick for m<=3; n<=4 thorough) drawn as combinations from all ordered conjunctions of distinct possibly-negated predicates over m<=3 predicates, placed in one parser state; every accepted set with n<=3 also under every assignment of continuation terminals {ta, tc, both} to the alternatives (the alternatives in conflict then differ per terminal) and, compiled with lalr(2), next to an extra plain empty reduction that the second token separates from the alternatives; accepted sets: all 2^m truth assignments; non-trivial = accepted set with >=1 assignment satisfying exactly one alternative; rejected sets that the reference calls exclusive+consistently ordered are counted as incompleteness (not a violation: the statement only constrains accepted sets and requires rejection of bad ones)")
+	var accepted, rejected, incomplete, decided, nontrivial, perTerminal, perTerminalRejected, extraAccepted, extraRejected int64
 	var accMu sync.Mutex
 	var acceptedSets []caseT
 	maxN := 3
@@ -334,6 +399,20 @@ func run(c *core.Ctx) {
 						if o.accepted {
 							atomic.AddInt64(&accepted, 1)
 							atomic.AddInt64(&decided, int64(o.decided))
+							if n <= 3 {
+								ke := caseT{M: m, Alts: k.Alts, Extra: true}
+								oe := ke.checkExtra()
+								c.Eval(1)
+								switch {
+								case oe.key != "":
+									c.Violate(oe.key, oe.msg+" :: "+ke.String()+" + S: X ta tc; X: %empty, lalr(2)", ke)
+								case oe.accepted:
+									atomic.AddInt64(&extraAccepted, 1)
+									atomic.AddInt64(&decided, int64(oe.decided))
+								default:
+									atomic.AddInt64(&extraRejected, 1)
+								}
+							}
 							if n >= 2 && n <= 3 {
 								// the same set with every assignment of continuation terminals
 								// {ta, tc, both} to the alternatives (all-ta is the base case)
@@ -411,6 +490,8 @@ func run(c *core.Ctx) {
 	c.Outcome("accepted", accepted)
 	c.Outcome("rejected", rejected)
 	c.Set("assignments_decided", decided)
+	c.Set("lalr2_extra_reduction_variants_accepted", extraAccepted)
+	c.Set("lalr2_extra_reduction_variants_rejected(conflict reported)", extraRejected)
 	c.Set("per_terminal_subset_variants", perTerminal)
 	c.Set("per_terminal_subset_variants_rejected(incompleteness)", perTerminalRejected)
 	c.Set("rejected_but_exclusive_and_consistently_ordered(incompleteness)", incomplete)
@@ -420,6 +501,12 @@ func replay(c *core.Ctx, raw json.RawMessage) error {
 	var k caseT
 	if err := json.Unmarshal(raw, &k); err != nil {
 		return err
+	}
+	if k.Extra {
+		if o := k.checkExtra(); o.key != "" {
+			return fmt.Errorf("%s: %s", o.key, o.msg)
+		}
+		return nil
 	}
 	if o := k.check(); o.key != "" {
 		return fmt.Errorf("%s: %s", o.key, o.msg)
